@@ -406,11 +406,15 @@ Proof.
   induction fuel as [|f IH]; intros s out Hi Hf; [lia|]. cbn [decode_all].
   assert (Hstep : safe (fst (match decode_one c s with
                              | Ok (ft, s') => decode_all f c s' (ft :: out)
-                             | Err e => (Err e, rev (s_events s))
+                             | Err e => match out, decode_file_header c s with
+                                        | _ :: _, Err e' => if e' =? E_EOF then (Ok (rev out), rev (s_events s)) else (Err e, rev (s_events s))
+                                        | _, _ => (Err e, rev (s_events s))
+                                        end
                              | Panic p => (Panic p, rev (s_events s))
                              | OutOfFuel => (OutOfFuel, rev (s_events s)) end))).
-  { pose proof (decode_one_post c s Hi) as Hp. destruct (decode_one c s) as [[ft s']| | |]; cbn in Hp; try contradiction; [|exact I].
-    destruct Hp as [Hi' Ha']. apply IH; [exact Hi'|unfold after in Ha'; lia]. }
+  { pose proof (decode_one_post c s Hi) as Hp. destruct (decode_one c s) as [[ft s']|e| |]; cbn in Hp; try contradiction.
+    - destruct Hp as [Hi' Ha']. apply IH; [exact Hi'|unfold after in Ha'; lia].
+    - destruct out; [exact I|]. destruct (decode_file_header c s); try exact I. destruct (_ =? _); exact I. }
   destruct (s_rest s) eqn:Er; [destruct out; [exact Hstep|exact I]|exact Hstep].
 Qed.
 
